@@ -6,8 +6,9 @@ Ground truth = the real stack: a list of frames `(pc, cfa)`, innermost first (`p
 the call in progress in frame k+1 that created frame k; `cfa` = the stack pointer before that call).
 `Chain env regs frames` says that the CFI is *sound for this machine state*: evaluating, frame after frame, the row of
 the frame's pc on the registers recovered so far yields the real CFA and the real return address of that frame, and the
-chain ends at a frame whose row gives no return address, its own pc again (`RIP=undefined` in `_start`/`clone`), or at a
-return address that has no unwind information.
+chain ends at a frame whose row gives no return address (`RIP=undefined` in `_start`/`clone`), or at a return address
+that has no unwind information.  The stack grows downwards: the CFA of a caller's frame is strictly greater than the
+CFA of its callee's (part of `Chain`; a fact of the machine, a call pushes the return address).
 
 Theorems quantify over every environment (CFI table, memory, object ranges), every register file and every stack.
 -/
@@ -19,18 +20,20 @@ structure Frame where
   cfa : Nat
   deriving DecidableEq, Repr
 
-/-- the last listed frame: no return address / its own pc again / a return address without unwind information -/
+/-- the last listed frame: no return address (the return-address column is `undefined`: `_start`, `clone`; or it has
+no value) / a return address without unwind information -/
 def Terminal (env : Env) (regs : Regs) (f : Frame) : Prop :=
   ∃ c, ctxNew env regs f.pc = .ok (some c) ∧ c.cfa = f.cfa ∧
-    (c.retAddr = none ∨ c.retAddr = some f.pc ∨ ∃ p, c.retAddr = some p ∧ env.known p = true ∧ env.cfi p = none)
+    (c.retAddr = none ∨ ∃ p, c.retAddr = some p ∧ env.known p = true ∧ env.cfi p = none)
 
-/-- the CFI is sound for the real stack `frames` when the innermost registers are `regs` -/
+/-- the CFI is sound for the real stack `frames` when the innermost registers are `regs`; the stack grows downwards
+(a call pushes the return address), so the CFA of the caller's frame is strictly greater -/
 def Chain (env : Env) : Regs → List Frame → Prop
   | _, [] => False
   | regs, [f] => Terminal env regs f
   | regs, f :: g :: rest =>
     ∃ c, ctxNew env regs f.pc = .ok (some c) ∧ c.cfa = f.cfa ∧ c.retAddr = some g.pc ∧ env.known g.pc = true ∧
-      Chain env (c.regs.upd rspDwarf c.cfa) (g :: rest)
+      f.cfa < g.cfa ∧ Chain env (c.regs.upd rspDwarf c.cfa) (g :: rest)
 
 def pcs (l : List Frame) : List Nat := l.map (·.pc)
 
@@ -40,130 +43,69 @@ theorem Chain_head {env : Env} {regs : Regs} {f : Frame} {rest : List Frame} (h 
   | nil => obtain ⟨c, h1, h2, _⟩ := h; exact ⟨c, h1, h2⟩
   | cons g r => obtain ⟨c, h1, h2, _⟩ := h; exact ⟨c, h1, h2⟩
 
-/-- the unwind loop on a sound chain whose remaining return addresses are new and pairwise distinct -/
-theorem loop_spec (env : Env) : ∀ (rest : List Frame) (f : Frame) (regs : Regs) (c : Ctx) (fuel : Nat) (bt visited : List Nat),
-    ctxNew env regs f.pc = .ok (some c) → Chain env regs (f :: rest) →
-    f.pc ∈ visited → (∀ g ∈ rest, g.pc ∉ visited) → (pcs rest).Nodup →
+/-- the unwind loop on a sound chain: every (ip, CFA) pair listed so far lies at or below the current frame, so no
+frame of the rest of the chain is taken for a repetition — whatever its return address -/
+theorem loop_spec (env : Env) : ∀ (rest : List Frame) (f : Frame) (regs : Regs) (c : Ctx) (fuel : Nat) (bt : List Nat)
+    (visited : List (Nat × Nat)),
+    ctxNew env regs f.pc = .ok (some c) → Chain env regs (f :: rest) → (∀ v ∈ visited, v.2 ≤ f.cfa) →
     unwindLoop env fuel c bt visited = .ok (bt ++ (pcs rest).take fuel) := by
   intro rest
   induction rest with
   | nil =>
-    intro f regs c fuel bt visited hc hch hv _ _
+    intro f regs c fuel bt visited hc hch _
     obtain ⟨c', h1, _, h3⟩ := hch
     rw [hc] at h1; cases h1
     cases fuel with
     | zero => simp [unwindLoop, pcs]
     | succ n =>
-      rcases h3 with h | h | ⟨p, hp, hk, hn⟩
+      rcases h3 with h | ⟨p, hp, hk, hn⟩
       · simp [unwindLoop, h, pcs]
-      · simp [unwindLoop, h, hv, pcs]
-      · by_cases hvis : p ∈ visited
-        · simp [unwindLoop, hp, hvis, pcs]
-        · simp [unwindLoop, hp, hvis, hk, ctxNext, ctxNew, hn, pcs]
+      · simp [unwindLoop, hp, hk, ctxNext, ctxNew, hn, pcs]
   | cons g rest ih =>
-    intro f regs c fuel bt visited hc hch hv hnew hnd
-    obtain ⟨c', h1, _, h3, hk, hrest⟩ := hch
+    intro f regs c fuel bt visited hc hch hv
+    obtain ⟨c', h1, hcfa, h3, hk, hlt, hrest⟩ := hch
     rw [hc] at h1; cases h1
     cases fuel with
     | zero => simp [unwindLoop, pcs]
     | succ n =>
-      obtain ⟨cg, hcg, _⟩ := Chain_head hrest
-      have hgv : g.pc ∉ visited := hnew g (by simp)
-      have hnd' : g.pc ∉ pcs rest ∧ (pcs rest).Nodup := by simpa [pcs] using hnd
-      have step : unwindLoop env (n + 1) c bt visited = unwindLoop env n cg (bt ++ [g.pc]) (g.pc :: visited) := by
-        simp [unwindLoop, h3, hgv, hk, ctxNext, hcg]
-      rw [step, ih g _ cg n _ _ hcg hrest (by simp) ?_ hnd'.2]
+      obtain ⟨cg, hcg, hgc⟩ := Chain_head hrest
+      have hnv : (g.pc, cg.cfa) ∉ visited := by
+        intro hmem
+        have := hv _ hmem
+        simp [hgc] at this; omega
+      have step : unwindLoop env (n + 1) c bt visited = unwindLoop env n cg (bt ++ [g.pc]) ((g.pc, cg.cfa) :: visited) := by
+        simp [unwindLoop, h3, hk, ctxNext, hcg, hnv]
+      rw [step, ih g _ cg n _ _ hcg hrest ?_]
       · simp [pcs, List.take_succ_cons]
-      · intro h hh hmem
+      · intro v hmem
         rcases List.mem_cons.mp hmem with e | e
-        · exact hnd'.1 (by rw [← e]; exact List.mem_map_of_mem hh)
-        · exact hnew h (by simp [hh]) e
-
-/-- without the distinctness hypothesis the loop still lists only real frames, in order: a prefix of the call chain -/
-theorem loop_prefix (env : Env) : ∀ (rest : List Frame) (f : Frame) (regs : Regs) (c : Ctx) (fuel : Nat) (bt visited : List Nat),
-    ctxNew env regs f.pc = .ok (some c) → Chain env regs (f :: rest) → f.pc ∈ visited →
-    ∃ n, unwindLoop env fuel c bt visited = .ok (bt ++ (pcs rest).take n) := by
-  intro rest
-  induction rest with
-  | nil =>
-    intro f regs c fuel bt visited hc hch hv
-    obtain ⟨c', h1, _, h3⟩ := hch
-    rw [hc] at h1; cases h1
-    refine ⟨0, ?_⟩
-    cases fuel with
-    | zero => simp [unwindLoop]
-    | succ n =>
-      rcases h3 with h | h | ⟨p, hp, hk, hn⟩
-      · simp [unwindLoop, h]
-      · simp [unwindLoop, h, hv]
-      · by_cases hvis : p ∈ visited
-        · simp [unwindLoop, hp, hvis]
-        · simp [unwindLoop, hp, hvis, hk, ctxNext, ctxNew, hn]
-  | cons g rest ih =>
-    intro f regs c fuel bt visited hc hch hv
-    obtain ⟨c', h1, _, h3, hk, hrest⟩ := hch
-    rw [hc] at h1; cases h1
-    cases fuel with
-    | zero => exact ⟨0, by simp [unwindLoop]⟩
-    | succ n =>
-      obtain ⟨cg, hcg, _⟩ := Chain_head hrest
-      by_cases hgv : g.pc ∈ visited
-      · exact ⟨0, by simp [unwindLoop, h3, hgv]⟩
-      · have step : unwindLoop env (n + 1) c bt visited = unwindLoop env n cg (bt ++ [g.pc]) (g.pc :: visited) := by
-          simp [unwindLoop, h3, hgv, hk, ctxNext, hcg]
-        obtain ⟨m, hm⟩ := ih g _ cg n (bt ++ [g.pc]) (g.pc :: visited) hcg hrest (by simp)
-        exact ⟨m + 1, by rw [step, hm]; simp [pcs, List.take_succ_cons]⟩
+        · rw [e]; simp [hgc]
+        · have := hv v e; omega
 
 
 /-! ## The backtrace -/
 
-/-- FULL statement of the backtrace clause: whenever the CFI is sound for the real stack, the backtrace is exactly the
-real call chain, innermost first, up to the depth cap.  FALSE of the unchanged tree (`C05_backtrace_is_stack_counterexample`). -/
-def C05_backtrace_is_stack_full : Prop :=
-  ∀ (env : Env) (regs0 : Regs) (f0 : Frame) (rest : List Frame),
-    Chain env regs0 (f0 :: rest) →
-    unwind env regs0 f0.pc = .ok ((pcs (f0 :: rest)).take maxUnwindDepth)
-
-/-- the named hypothesis under which the unchanged code meets the statement: no return address occurs twice in the
-real chain (false as soon as a function is active twice with the same call site: recursion) -/
-def DistinctReturnAddrs (frames : List Frame) : Prop := (pcs frames).Nodup
-
-instance (frames : List Frame) : Decidable (DistinctReturnAddrs frames) := by
-  unfold DistinctReturnAddrs; infer_instance
-
-/-- for every environment, register file and stack of ANY depth: sound CFI + distinct return addresses ⇒ the
-backtrace is exactly the real call chain, innermost first, cut only by `MAX_UNWIND_DEPTH` -/
-theorem C05_backtrace_is_stack_partial (env : Env) (regs0 : Regs) (f0 : Frame) (rest : List Frame)
-    (hch : Chain env regs0 (f0 :: rest)) (hd : DistinctReturnAddrs (f0 :: rest)) :
+/-- for every environment, register file and stack of ANY depth, recursion included: whenever the CFI is sound for the
+real stack, the backtrace is exactly the real call chain, innermost first, cut only by `MAX_UNWIND_DEPTH` -/
+theorem C05_backtrace_is_stack (env : Env) (regs0 : Regs) (f0 : Frame) (rest : List Frame)
+    (hch : Chain env regs0 (f0 :: rest)) :
     unwind env regs0 f0.pc = .ok ((pcs (f0 :: rest)).take maxUnwindDepth) := by
-  obtain ⟨c, hc, _⟩ := Chain_head hch
-  have hnd : f0.pc ∉ pcs rest ∧ (pcs rest).Nodup := by simpa [DistinctReturnAddrs, pcs] using hd
-  have hloop := loop_spec env rest f0 regs0 c (maxUnwindDepth - 1) [f0.pc] [f0.pc] hc hch (by simp)
-    (by intro g hg hmem
-        have : g.pc = f0.pc := by simpa using hmem
-        exact hnd.1 (by rw [← this]; exact List.mem_map_of_mem hg))
-    hnd.2
+  obtain ⟨c, hc, hcfa⟩ := Chain_head hch
+  have hloop := loop_spec env rest f0 regs0 c (maxUnwindDepth - 1) [f0.pc] [(f0.pc, c.cfa)] hc hch
+    (by intro v hv; have : v = (f0.pc, c.cfa) := by simpa using hv
+        rw [this]; simp [hcfa])
   have hm : maxUnwindDepth = (maxUnwindDepth - 1) + 1 := by decide
   unfold unwind
   rw [hc]; simp only []
   rw [hloop, hm]
   simp [pcs, List.take_succ_cons]
 
-/-- with NO hypothesis on the return addresses the backtrace is still a prefix of the real call chain, starting with
-the current pc: it never lists a frame that is not active, never reorders, never fails -/
-theorem C05_backtrace_is_prefix (env : Env) (regs0 : Regs) (f0 : Frame) (rest : List Frame)
-    (hch : Chain env regs0 (f0 :: rest)) :
-    ∃ n, unwind env regs0 f0.pc = .ok (f0.pc :: (pcs rest).take n) := by
-  obtain ⟨c, hc, _⟩ := Chain_head hch
-  obtain ⟨n, hn⟩ := loop_prefix env rest f0 regs0 c (maxUnwindDepth - 1) [f0.pc] [f0.pc] hc hch (by simp)
-  exact ⟨n, by unfold unwind; rw [hc]; simp only []; rw [hn]; simp⟩
-
 /-- a stop at a pc without unwind information: the backtrace is the current pc alone -/
 theorem C05_no_unwind_info (env : Env) (regs0 : Regs) (pc0 : Nat) (hk : env.known pc0 = true) (hn : env.cfi pc0 = none) :
     unwind env regs0 pc0 = .ok [pc0] := by
   simp [unwind, ctxNew, hk, hn]
 
-theorem unwindLoop_length (env : Env) : ∀ (fuel : Nat) (c : Ctx) (bt visited : List Nat) (r : List Nat),
+theorem unwindLoop_length (env : Env) : ∀ (fuel : Nat) (c : Ctx) (bt : List Nat) (visited : List (Nat × Nat)) (r : List Nat),
     unwindLoop env fuel c bt visited = .ok r → r.length ≤ bt.length + fuel := by
   intro fuel
   induction fuel with
@@ -174,11 +116,11 @@ theorem unwindLoop_length (env : Env) : ∀ (fuel : Nat) (c : Ctx) (bt visited :
     split at h
     · cases h; omega
     · split at h
-      · cases h; omega
+      · cases h
       · split at h
         · cases h
+        · cases h; omega
         · split at h
-          · cases h
           · cases h; omega
           · have := ih _ _ _ _ h; simp at this; omega
 
@@ -195,12 +137,12 @@ theorem C05_depth_bound (env : Env) (regs0 : Regs) (pc0 : Nat) (r : List Nat) (h
     simp at this; omega
 
 
-/-- selecting frame k puts the exploration context on the k-th real frame (same hypotheses as the backtrace theorem) -/
-theorem C05_frame_select_ip_partial (env : Env) (regs0 : Regs) (f0 : Frame) (rest : List Frame) (k ip : Nat)
-    (hch : Chain env regs0 (f0 :: rest)) (hd : DistinctReturnAddrs (f0 :: rest))
+/-- selecting frame k puts the exploration context on the k-th real frame, in a recursion too -/
+theorem C05_frame_select_ip (env : Env) (regs0 : Regs) (f0 : Frame) (rest : List Frame) (k ip : Nat)
+    (hch : Chain env regs0 (f0 :: rest))
     (hk : ((pcs (f0 :: rest)).take maxUnwindDepth)[k]? = some ip) :
     setFrame env regs0 f0.pc k = .ok ip := by
-  simp [setFrame, C05_backtrace_is_stack_partial env regs0 f0 rest hch hd, hk]
+  simp [setFrame, C05_backtrace_is_stack env regs0 f0 rest hch, hk]
 
 /-! ## Frame selection: the registers handed to variable / argument / register reads of frame k -/
 
@@ -217,88 +159,195 @@ def carried (env : Env) : Nat → Regs → Nat → Except Fault Regs
     | .ok none => .error .err
     | .error f => .error f
 
-/-- FULL statement of the selection clause: reads in frame k use the registers of activation k.
-FALSE of the unchanged tree (`C05_frame_select_counterexample`): `restore_registers_at_frame(k)` applies the row of frame k
-once more, so every register that frame k's function saved (rbp, rbx, r12–r15, and the return-address column) is the one
-of activation k+1. -/
-def C05_frame_select_full : Prop :=
-  ∀ (env : Env) (regs0 : Regs) (pc0 k : Nat) (r r' : Regs),
-    carried env k regs0 pc0 = .ok r → restoreRegs env regs0 pc0 k = .ok r' → ∀ i, r' i = r i
-
-/-- no CFI row assigns the stack pointer column (true of every row the harness has met) -/
-def NoSpRule (env : Env) : Prop := ∀ pc row, env.cfi pc = some row → ∀ p ∈ row.rules, p.1 ≠ rspDwarf
-
-theorem applyRules_other (env : Env) (snap : Regs) (cfa i : Nat) : ∀ (rules : List (Nat × Rule)) (next next' : Regs),
-    applyRules env snap cfa rules next = .ok next' → (∀ p ∈ rules, p.1 ≠ i) → next' i = next i := by
+theorem applyRules_isSome (env : Env) (snap : Regs) (cfa i : Nat) : ∀ (rules : List (Nat × Rule)) (next next' : Regs),
+    applyRules env snap cfa rules next = .ok next' → (next i).isSome → (next' i).isSome := by
   intro rules
   induction rules with
-  | nil => intro next next' h _; simp [applyRules] at h; rw [← h]
+  | nil => intro next next' h hs; simp [applyRules] at h; rw [← h]; exact hs
   | cons p rest ih =>
-    intro next next' h hne
+    intro next next' h hs
     obtain ⟨reg, rule⟩ := p
     unfold applyRules at h
     split at h
     · cases h
-    · exact ih _ _ h (fun q hq => hne q (by simp [hq]))
+    · exact ih _ _ h hs
     · split at h
-      · rw [ih _ _ h (fun q hq => hne q (by simp [hq]))]
-        have : reg ≠ i := hne (reg, rule) (by simp)
-        simp [Regs.upd, Ne.symm this]
+      · refine ih _ _ h ?_
+        show (if i = reg then some _ else next i).isSome
+        split <;> simp [hs]
       · cases h
 
-theorem ctxNew_sp {env : Env} {regs : Regs} {pc : Nat} {c : Ctx} (h : ctxNew env regs pc = .ok (some c)) (hs : NoSpRule env) :
-    c.regs rspDwarf = regs rspDwarf := by
+/-- unwinding never forgets a register: what has a value keeps one (`next_registers` starts as a clone) -/
+theorem ctxNew_isSome {env : Env} {regs : Regs} {pc : Nat} {c : Ctx} (i : Nat) (h : ctxNew env regs pc = .ok (some c))
+    (hs : (regs i).isSome) : (c.regs i).isSome := by
   unfold ctxNew at h
   split at h
   · cases h
   · split at h
     · cases h
-    · rename_i row hrow
-      split at h
+    · split at h
       · cases h
       · split at h
         · cases h
         · rename_i next hnext
           cases h
-          exact applyRules_other env regs _ rspDwarf _ _ _ hnext (hs pc row hrow)
+          exact applyRules_isSome env regs _ i _ _ _ hnext hs
 
-theorem restoreLoop_spec (env : Env) (hs : NoSpRule env) : ∀ (k : Nat) (f : Frame) (rest : List Frame) (regs : Regs) (c : Ctx),
-    ctxNew env regs f.pc = .ok (some c) → Chain env regs (f :: rest) → k ≤ rest.length →
-    ∃ ck, restoreLoop env k c = .ok ck ∧
-      ck.regs rspDwarf = (if k = 0 then regs rspDwarf else ((f :: rest)[k - 1]?).map (·.cfa)) := by
+theorem carried_isSome (env : Env) (i : Nat) : ∀ (k : Nat) (regs : Regs) (pc : Nat) (r : Regs),
+    carried env k regs pc = .ok r → (regs i).isSome → (r i).isSome := by
   intro k
   induction k with
-  | zero => intro f rest regs c hc _ _; exact ⟨c, by simp [restoreLoop], by simpa using ctxNew_sp hc hs⟩
+  | zero => intro regs pc r h hs; simp [carried] at h; rw [← h]; exact hs
+  | succ k ih =>
+    intro regs pc r h hs
+    unfold carried at h
+    split at h
+    · rename_i c hc
+      split at h
+      · refine ih _ _ _ h ?_
+        show (if i = rspDwarf then some _ else c.regs i).isSome
+        split
+        · simp
+        · exact ctxNew_isSome i hc hs
+      · cases h
+    · cases h
+    · cases h
+
+/-- the loop of `restore_registers_at_frame` walks exactly the contexts the unwinder itself walks -/
+theorem restoreLoop_carried (env : Env) : ∀ (j : Nat) (regs : Regs) (pc : Nat) (c ck : Ctx) (ret : Nat),
+    ctxNew env regs pc = .ok (some c) → restoreLoop env j c = .ok ck → ck.retAddr = some ret →
+    carried env (j + 1) regs pc = .ok ck.callerRegs := by
+  intro j
+  induction j with
+  | zero =>
+    intro regs pc c ck ret hc hl hr
+    simp [restoreLoop] at hl; subst hl
+    simp [carried, hc, hr, Ctx.callerRegs]
+  | succ j ih =>
+    intro regs pc c ck ret hc hl hr
+    unfold restoreLoop at hl
+    split at hl
+    · cases hl
+    · rename_i ret' hret'
+      split at hl
+      · cases hl
+      · split at hl
+        · cases hl
+        · cases hl
+        · rename_i c' hc'
+          simp only [ctxNext] at hc'
+          have := ih _ ret' c' ck ret hc' hl hr
+          rw [carried, hc]; simp only [hret']; exact this
+
+theorem updateFrom_carried (env : Env) (k : Nat) (regs0 : Regs) (pc0 : Nat) (r : Regs)
+    (h : carried env k regs0 pc0 = .ok r) : regs0.updateFrom r = r := by
+  funext i
+  unfold Regs.updateFrom
+  cases hri : r i with
+  | some v => rfl
+  | none =>
+    cases h0 : regs0 i with
+    | none => rfl
+    | some v =>
+      have := carried_isSome env i k regs0 pc0 r h (by simp [h0])
+      simp [hri] at this
+
+/-- the selection clause, for EVERY environment, register file and frame number (sound CFI or not): the registers that
+`restore_registers_at_frame(k)` hands to the reads of frame k are the registers the unwinder carried into frame k — the
+callee-saved registers, the return-address column and the stack pointer of activation k, not of its caller -/
+theorem C05_frame_select (env : Env) (regs0 : Regs) (pc0 k : Nat) (r r' : Regs)
+    (hc : carried env k regs0 pc0 = .ok r) (hr : restoreRegs env regs0 pc0 k = .ok r') : ∀ i, r' i = r i := by
+  cases k with
+  | zero =>
+    simp [carried] at hc; simp [restoreRegs] at hr
+    subst hc; subst hr; intro i; rfl
+  | succ j =>
+    unfold restoreRegs at hr
+    simp only [Nat.succ_ne_zero, if_false, Nat.add_sub_cancel] at hr
+    split at hr
+    · cases hr
+    · cases hr
+    · rename_i c hc0
+      split at hr
+      · cases hr
+      · rename_i ck hck
+        split at hr
+        · cases hr
+        · rename_i ret hret
+          have h1 := restoreLoop_carried env j regs0 pc0 c ck ret hc0 hck hret
+          rw [hc] at h1
+          have h2 : r = ck.callerRegs := Except.ok.inj h1
+          have h3 := updateFrom_carried env (j + 1) regs0 pc0 r hc
+          cases hr
+          intro i; rw [← h2, h3]
+
+/-- on a sound chain the carried registers of frame k exist and the CFI is sound for the rest of the stack from them -/
+theorem carried_chain (env : Env) : ∀ (k : Nat) (f : Frame) (rest : List Frame) (regs : Regs),
+    Chain env regs (f :: rest) → k ≤ rest.length →
+    ∃ r, carried env k regs f.pc = .ok r ∧ Chain env r ((f :: rest).drop k) := by
+  intro k
+  induction k with
+  | zero => intro f rest regs h _; exact ⟨regs, rfl, h⟩
+  | succ k ih =>
+    intro f rest regs h hk
+    cases rest with
+    | nil => simp at hk
+    | cons g rest' =>
+      obtain ⟨c, h1, _, h3, _, _, hrest⟩ := h
+      obtain ⟨r, hr, hch⟩ := ih g rest' _ hrest (by simpa using hk)
+      exact ⟨r, by simp [carried, h1, h3, hr], by simpa using hch⟩
+
+theorem restoreLoop_chain (env : Env) : ∀ (k : Nat) (f : Frame) (rest : List Frame) (regs : Regs) (c : Ctx),
+    ctxNew env regs f.pc = .ok (some c) → Chain env regs (f :: rest) → k + 1 ≤ rest.length →
+    ∃ ck ret, restoreLoop env k c = .ok ck ∧ ck.retAddr = some ret ∧ ((f :: rest)[k]?).map (·.cfa) = some ck.cfa := by
+  intro k
+  induction k with
+  | zero =>
+    intro f rest regs c hc hch hk
+    cases rest with
+    | nil => simp at hk
+    | cons g rest' =>
+      obtain ⟨c', h1, hcfa, h3, _⟩ := hch
+      rw [hc] at h1; cases h1
+      exact ⟨c, g.pc, by simp [restoreLoop], h3, by simp [hcfa]⟩
   | succ k ih =>
     intro f rest regs c hc hch hk
     cases rest with
     | nil => simp at hk
     | cons g rest' =>
-      obtain ⟨c', h1, hcfa, h3, hkn, hrest⟩ := hch
+      obtain ⟨c', h1, _, h3, hkn, _, hrest⟩ := hch
       rw [hc] at h1; cases h1
       obtain ⟨cg, hcg, _⟩ := Chain_head hrest
-      obtain ⟨ck, hck, hsp⟩ := ih g rest' _ cg hcg hrest (by simpa using hk)
-      refine ⟨ck, by simp [restoreLoop, h3, hkn, ctxNext, hcg, hck], ?_⟩
-      rw [hsp]
-      cases k with
-      | zero => simp [Regs.upd, hcfa]
-      | succ j => simp
+      obtain ⟨ck, ret, hck, hret, hcfa⟩ := ih g rest' _ cg hcg hrest (by simpa using hk)
+      exact ⟨ck, ret, by simp [restoreLoop, h3, hkn, ctxNext, hcg, hck], hret, by simpa using hcfa⟩
 
-/-- for every sound chain (recursion included — this path has no cycle guard) and every existing frame k+1:
-`restore_registers_at_frame(k+1)` succeeds and its stack pointer is the CFA of frame k, i.e. the stack pointer of
-activation k+1 right after the return into it -/
+/-- for every sound chain (recursion included) and every existing frame k: `restore_registers_at_frame(k)` succeeds and
+the CFI is sound for the stack from frame k on when started from the registers it hands out — in particular frame k's
+own row evaluates on them to the real CFA and the real return address of frame k -/
+theorem C05_frame_select_chain (env : Env) (regs0 : Regs) (f0 : Frame) (rest : List Frame) (k : Nat)
+    (hch : Chain env regs0 (f0 :: rest)) (hk : k ≤ rest.length) :
+    ∃ r, restoreRegs env regs0 f0.pc k = .ok r ∧ carried env k regs0 f0.pc = .ok r ∧ Chain env r ((f0 :: rest).drop k) := by
+  cases k with
+  | zero => exact ⟨regs0, by simp [restoreRegs], rfl, hch⟩
+  | succ j =>
+    obtain ⟨c, hc, _⟩ := Chain_head hch
+    obtain ⟨ck, ret, hck, hret, _⟩ := restoreLoop_chain env j f0 rest regs0 c hc hch hk
+    obtain ⟨r, hr, hchr⟩ := carried_chain env (j + 1) f0 rest regs0 hch hk
+    have h1 := restoreLoop_carried env j regs0 f0.pc c ck ret hc hck hret
+    rw [hr] at h1
+    have h2 : r = ck.callerRegs := Except.ok.inj h1
+    refine ⟨r, ?_, hr, hchr⟩
+    simp [restoreRegs, hc, hck, hret, ← h2, updateFrom_carried env (j + 1) regs0 f0.pc r hr]
+
+/-- … and their stack pointer is the CFA of frame k, i.e. the stack pointer of activation k+1 right after the return
+into it -/
 theorem C05_frame_select_sp (env : Env) (regs0 : Regs) (f0 : Frame) (rest : List Frame) (k : Nat)
-    (hch : Chain env regs0 (f0 :: rest)) (hs : NoSpRule env) (hk : k + 1 ≤ rest.length) :
+    (hch : Chain env regs0 (f0 :: rest)) (hk : k + 1 ≤ rest.length) :
     ∃ r, restoreRegs env regs0 f0.pc (k + 1) = .ok r ∧ r rspDwarf = ((f0 :: rest)[k]?).map (·.cfa) := by
   obtain ⟨c, hc, _⟩ := Chain_head hch
-  obtain ⟨ck, hck, hsp⟩ := restoreLoop_spec env hs (k + 1) f0 rest regs0 c hc hch hk
-  refine ⟨regs0.updateFrom ck.regs, by simp [restoreRegs, hc, hck], ?_⟩
-  simp at hsp
-  cases hv : (f0 :: rest)[k]? with
-  | none =>
-    have : k < (f0 :: rest).length := by simp; omega
-    simp at hv; omega
-  | some fr => simp [Regs.updateFrom, hsp, hv]
+  obtain ⟨ck, ret, hck, hret, hcfa⟩ := restoreLoop_chain env k f0 rest regs0 c hc hch hk
+  refine ⟨regs0.updateFrom ck.callerRegs, by simp [restoreRegs, hc, hck, hret], ?_⟩
+  rw [hcfa]; simp [Regs.updateFrom, Ctx.callerRegs, Regs.upd]
 
 /-- frame 0 is the thread as it is -/
 theorem C05_frame_select_zero (env : Env) (regs0 : Regs) (pc0 : Nat) : restoreRegs env regs0 pc0 0 = .ok regs0 := by
@@ -327,32 +376,58 @@ theorem ctxNew_cfa {env : Env} {regs : Regs} {pc : Nat} {c : Ctx} (h : ctxNew en
         · cases h
         · cases h; exact ⟨row, hrow, hcfa⟩
 
-/-- FULL statement of the frame_info clause: for the selected frame k of a sound chain the reported CFA is the real
-CFA of frame k.  FALSE of the unchanged tree for k > 0 (`C05_frame_info_counterexample`): `get_cfa` evaluates the row of
-frame k's pc on the registers of frame 0. -/
-def C05_frame_info_full : Prop :=
-  ∀ (env : Env) (regs0 : Regs) (frames : List Frame) (k : Nat) (fk f0 : Frame) (fi : FrameInfo),
-    Chain env regs0 frames → DistinctReturnAddrs frames → frames[0]? = some f0 → frames[k]? = some fk →
-    frameInfo env regs0 f0.pc fk.pc = .ok fi → fi.cfa = fk.cfa
+/-- the frame_info clause: for the selected frame k of a sound chain (recursion included) the answer describes frame k:
+its number, its real CFA (the stack pointer before the call that created the frame), and the pc of its caller's frame as
+return address (none for the last listed frame) -/
+theorem C05_frame_info (env : Env) (regs0 : Regs) (frames : List Frame) (k : Nat) (fk f0 : Frame) (fi : FrameInfo)
+    (hch : Chain env regs0 frames) (h0 : frames[0]? = some f0) (hk : frames[k]? = some fk)
+    (hfi : frameInfo env regs0 f0.pc fk.pc k = .ok fi) :
+    fi.cfa = fk.cfa ∧ fi.num = k ∧ fi.ret = ((pcs frames).take maxUnwindDepth)[k + 1]? := by
+  cases frames with
+  | nil => simp at h0
+  | cons f rest =>
+    have hf : f = f0 := by simpa using h0
+    subst hf
+    obtain ⟨hlen, hget⟩ := List.getElem?_eq_some_iff.mp hk
+    have hdrop : (f :: rest).drop k = fk :: (f :: rest).drop (k + 1) := by
+      rw [← hget]; exact List.drop_eq_getElem_cons hlen
+    obtain ⟨r, hr, _, hchr⟩ := C05_frame_select_chain env regs0 f rest k hch (by simp at hlen; omega)
+    rw [hdrop] at hchr
+    obtain ⟨c, hc, hcfa⟩ := Chain_head hchr
+    obtain ⟨row, hrow, hev⟩ := ctxNew_cfa hc
+    have hun := C05_backtrace_is_stack env regs0 f rest hch
+    unfold frameInfo getCfa at hfi
+    rw [hr, hun] at hfi
+    split at hfi
+    · cases hfi
+    · rename_i cfa hg
+      split at hg
+      · cases hg
+      · rename_i row' hrow'
+        have : row' = row := by
+          have : env.cfi fk.pc = some row' := by simp [Env.cfi, hrow']
+          rw [hrow] at this; exact (Option.some.inj this).symm
+        subst this
+        simp only [] at hg
+        rw [hev] at hg
+        cases hg
+        simp only [] at hfi
+        split at hfi
+        · cases hfi
+        · cases hfi; exact ⟨hcfa, rfl, rfl⟩
 
 /-- frame 0 of every sound chain (recursion included): number 0, the real CFA, the caller's pc as return address -/
 theorem C05_frame_info_innermost (env : Env) (regs0 : Regs) (f0 g : Frame) (rest : List Frame)
-    (hch : Chain env regs0 (f0 :: g :: rest)) (heh : env.cfiEh f0.pc = env.cfi f0.pc) (hne : g.pc ≠ f0.pc) :
-    frameInfo env regs0 f0.pc f0.pc = .ok { num := 0, cfa := f0.cfa, ret := some g.pc } := by
-  have hch' := hch
-  obtain ⟨c, hc, hcfa, h3, hk, hrest⟩ := hch
+    (hch : Chain env regs0 (f0 :: g :: rest)) (heh : env.cfiEh f0.pc = env.cfi f0.pc) :
+    frameInfo env regs0 f0.pc f0.pc 0 = .ok { num := 0, cfa := f0.cfa, ret := some g.pc } := by
+  have hun := C05_backtrace_is_stack env regs0 f0 (g :: rest) hch
+  obtain ⟨c, hc, hcfa, _⟩ := hch
   obtain ⟨row, hrow, hev⟩ := ctxNew_cfa hc
-  obtain ⟨cg, hcg, _⟩ := Chain_head hrest
-  obtain ⟨n, hn⟩ := loop_prefix env rest g _ cg (maxUnwindDepth - 1 - 1) [f0.pc, g.pc] [g.pc, f0.pc] hcg hrest (by simp)
-  have hm : maxUnwindDepth - 1 = (maxUnwindDepth - 1 - 1) + 1 := by decide
-  have hun : unwind env regs0 f0.pc = .ok ([f0.pc, g.pc] ++ (pcs rest).take n) := by
-    unfold unwind
-    rw [hc]; simp only []
-    rw [hm]
-    simp [unwindLoop, h3, hne, hk, ctxNext, hcg, hn]
-  simp [frameInfo, getCfa, heh, hrow, hev, hun, indexOf?, hcfa]
+  have hm : maxUnwindDepth = (maxUnwindDepth - 2) + 2 := by decide
+  rw [hm] at hun
+  simp [frameInfo, getCfa, restoreRegs, heh, hrow, hev, hun, pcs, List.take_succ_cons, hcfa]
 
-/-! ## Concrete stacks: non-vacuity, and the witnesses of the two defects -/
+/-! ## Concrete stacks: non-vacuity, and the witnesses of the repaired defects -/
 namespace Ex
 
 def rowFn : Row := { cfa := .regOff 7 16, rules := [(16, .offset (-8))], ra := 16 }
@@ -368,82 +443,72 @@ def cfiFp (pc : Nat) : Option Row :=
   if 100 ≤ pc ∧ pc < 400 then some rowFp else if 500 ≤ pc ∧ pc < 600 then some rowStart else none
 
 /-- `f` (pcs 100..199) called from `main` (300..399) called from `_start` (500..599) -/
-def envPlain : Env := { cfi := cfiSp, cfiEh := cfiSp, known := fun a => decide (a < 1000), mem := memOf [(1008, 350), (1024, 550)] }
+def envPlain : Env := { cfiEh := cfiSp, cfiDf := fun _ => none, known := fun a => decide (a < 1000), mem := memOf [(1008, 350), (1024, 550)] }
 def stackPlain : List Frame := [⟨120, 1016⟩, ⟨350, 1032⟩, ⟨550, 1040⟩]
 
 /-- `f` recursing twice through the same call site (return address 150) -/
-def envRec : Env := { cfi := cfiSp, cfiEh := cfiSp, known := fun a => decide (a < 1000), mem := memOf [(1008, 150), (1024, 150), (1040, 350), (1056, 550)] }
+def envRec : Env := { cfiEh := cfiSp, cfiDf := fun _ => none, known := fun a => decide (a < 1000),
+                      mem := memOf [(1008, 150), (1024, 150), (1040, 350), (1056, 550)] }
 def stackRec : List Frame := [⟨120, 1016⟩, ⟨150, 1032⟩, ⟨150, 1048⟩, ⟨350, 1064⟩, ⟨550, 1072⟩]
 
 /-- frame-pointer code: `f` (rbp 1100) called from `main` (rbp 1200) called from `_start` -/
-def envFp : Env := { cfi := cfiFp, cfiEh := cfiFp, known := fun a => decide (a < 2000),
+def envFp : Env := { cfiEh := cfiFp, cfiDf := fun _ => none, known := fun a => decide (a < 2000),
                      mem := memOf [(1100, 1200), (1108, 350), (1200, 1300), (1208, 550)] }
+def stackFp : List Frame := [⟨120, 1116⟩, ⟨350, 1216⟩, ⟨550, 1224⟩]
 
 theorem chainPlain : Chain envPlain (regsAt 1000 0 120) stackPlain :=
-  ⟨_, rfl, rfl, rfl, rfl, _, rfl, rfl, rfl, rfl, _, rfl, rfl, Or.inr (Or.inl rfl)⟩
+  ⟨_, rfl, rfl, rfl, rfl, by decide, _, rfl, rfl, rfl, rfl, by decide, _, rfl, rfl, Or.inl rfl⟩
 
 theorem chainRec : Chain envRec (regsAt 1000 0 120) stackRec :=
-  ⟨_, rfl, rfl, rfl, rfl, _, rfl, rfl, rfl, rfl, _, rfl, rfl, rfl, rfl, _, rfl, rfl, rfl, rfl, _, rfl, rfl, Or.inr (Or.inl rfl)⟩
+  ⟨_, rfl, rfl, rfl, rfl, by decide, _, rfl, rfl, rfl, rfl, by decide, _, rfl, rfl, rfl, rfl, by decide,
+   _, rfl, rfl, rfl, rfl, by decide, _, rfl, rfl, Or.inl rfl⟩
+
+theorem chainFp : Chain envFp (regsAt 1000 1100 120) stackFp :=
+  ⟨_, rfl, rfl, rfl, rfl, by decide, _, rfl, rfl, rfl, rfl, by decide, _, rfl, rfl, Or.inl rfl⟩
 
 end Ex
 
-/-- non-vacuity of `C05_backtrace_is_stack_partial`: a sound chain with distinct return addresses exists, and the model
-answers with all three frames -/
-example : Chain Ex.envPlain (Ex.regsAt 1000 0 120) Ex.stackPlain ∧ DistinctReturnAddrs Ex.stackPlain ∧
+/-- non-vacuity of `C05_backtrace_is_stack`: a sound chain exists, and the model answers with all three frames -/
+example : Chain Ex.envPlain (Ex.regsAt 1000 0 120) Ex.stackPlain ∧
     unwind Ex.envPlain (Ex.regsAt 1000 0 120) 120 = .ok [120, 350, 550] :=
-  ⟨Ex.chainPlain, by decide, C05_backtrace_is_stack_partial _ _ ⟨120, 1016⟩ _ Ex.chainPlain (by decide)⟩
+  ⟨Ex.chainPlain, C05_backtrace_is_stack _ _ ⟨120, 1016⟩ _ Ex.chainPlain⟩
 
-/-- the unchanged tree cuts the backtrace of a recursion at the second occurrence of a return address: the chain is
-sound, the real stack has five frames, the backtrace has two -/
-theorem C05_backtrace_is_stack_counterexample : ¬ C05_backtrace_is_stack_full := by
-  intro h
-  have h1 := h Ex.envRec (Ex.regsAt 1000 0 120) ⟨120, 1016⟩ _ Ex.chainRec
-  have h2 : unwind Ex.envRec (Ex.regsAt 1000 0 120) 120 = .ok [120, 150] := rfl
-  rw [h2] at h1
-  have h3 := Except.ok.inj h1
-  revert h3; decide
+/-- the recursion through one call site (the witness of the repaired defect: the unwinder used to stop at the second
+occurrence of return address 150 and list two frames): the backtrace has all five frames -/
+example : unwind Ex.envRec (Ex.regsAt 1000 0 120) 120 = .ok [120, 150, 150, 350, 550] :=
+  C05_backtrace_is_stack _ _ ⟨120, 1016⟩ _ Ex.chainRec
 
-/-- non-vacuity of `C05_backtrace_is_prefix` on the recursive stack (prefix of length 2 of 5) -/
-example : ∃ n, unwind Ex.envRec (Ex.regsAt 1000 0 120) 120 = .ok (120 :: (pcs (Ex.stackRec.drop 1)).take n) :=
-  C05_backtrace_is_prefix _ _ ⟨120, 1016⟩ _ Ex.chainRec
-
-/-- non-vacuity of `C05_frame_select_sp`: it holds in the recursion the backtrace cannot show -/
+/-- non-vacuity of `C05_frame_select_sp`, in the recursion -/
 example : ∃ r, restoreRegs Ex.envRec (Ex.regsAt 1000 0 120) 120 3 = .ok r ∧ r rspDwarf = some 1048 := by
-  have hs : NoSpRule Ex.envRec := by
-    intro pc row h p hp
-    simp [Ex.envRec, Ex.cfiSp] at h
-    split at h
-    · cases h; simp [Ex.rowFn] at hp; subst hp; decide
-    · split at h
-      · cases h; simp [Ex.rowStart] at hp; subst hp; decide
-      · cases h
-  simpa [Ex.stackRec] using C05_frame_select_sp Ex.envRec _ ⟨120, 1016⟩ _ 2 Ex.chainRec hs (by decide)
+  simpa [Ex.stackRec] using C05_frame_select_sp Ex.envRec _ ⟨120, 1016⟩ _ 2 Ex.chainRec (by decide)
 
-/-- `restore_registers_at_frame(1)` hands out the frame pointer (and return-address column) of activation 2 -/
-theorem C05_frame_select_counterexample : ¬ C05_frame_select_full := by
-  intro h
-  have hc : ∃ r, carried Ex.envFp 1 (Ex.regsAt 1000 1100 120) 120 = .ok r ∧ r 6 = some 1200 := ⟨_, rfl, rfl⟩
-  have hr : ∃ r', restoreRegs Ex.envFp (Ex.regsAt 1000 1100 120) 120 1 = .ok r' ∧ r' 6 = some 1300 := ⟨_, rfl, rfl⟩
-  obtain ⟨r, h1, h2⟩ := hc
-  obtain ⟨r', h3, h4⟩ := hr
-  have := h _ _ _ _ _ _ h1 h3 6
-  rw [h2, h4] at this
-  cases this
+/-- non-vacuity of `C05_frame_select` / `C05_frame_select_chain` on the frame-pointer stack (the witness of the repaired
+defect: frame 1 used to get the frame pointer 1300 of activation 2): the registers of frame 1 carry ITS frame pointer -/
+example : ∃ r, restoreRegs Ex.envFp (Ex.regsAt 1000 1100 120) 120 1 = .ok r ∧
+    carried Ex.envFp 1 (Ex.regsAt 1000 1100 120) 120 = .ok r ∧ r 6 = some 1200 ∧ r 16 = some 350 ∧ r 7 = some 1116 := by
+  obtain ⟨r, h1, h2, _⟩ := C05_frame_select_chain Ex.envFp _ ⟨120, 1116⟩ _ 1 Ex.chainFp (by decide)
+  have h3 : carried Ex.envFp 1 (Ex.regsAt 1000 1100 120) 120 = .ok _ := rfl
+  rw [h3] at h2
+  have := Except.ok.inj h2
+  subst this
+  exact ⟨_, h1, h3, rfl, rfl, rfl⟩
 
-/-- `frame_info` for frame 1 of the plain three-frame stack reports CFA 1016 (= rsp of frame 0 + 16); the real CFA of
-frame 1 is 1032 -/
-theorem C05_frame_info_counterexample : ¬ C05_frame_info_full := by
-  intro h
-  have hfi : frameInfo Ex.envPlain (Ex.regsAt 1000 0 120) 120 350 = .ok { num := 1, cfa := 1016, ret := some 550 } := rfl
-  have := h Ex.envPlain _ Ex.stackPlain 1 ⟨350, 1032⟩ ⟨120, 1016⟩ _ Ex.chainPlain (by decide) rfl rfl hfi
-  revert this; decide
+/-- non-vacuity of `C05_frame_info` for an outer frame (the witness of the repaired defect: frame 1 of the plain stack
+used to be reported with CFA 1016 = rsp of frame 0 + 16): the CFA of frame 1 is 1032 -/
+example : frameInfo Ex.envPlain (Ex.regsAt 1000 0 120) 120 350 1 = .ok { num := 1, cfa := 1032, ret := some 550 } := rfl
+
+example (fi : FrameInfo) (h : frameInfo Ex.envPlain (Ex.regsAt 1000 0 120) 120 350 1 = .ok fi) : fi.cfa = 1032 :=
+  (C05_frame_info Ex.envPlain _ Ex.stackPlain 1 ⟨350, 1032⟩ ⟨120, 1016⟩ fi Ex.chainPlain rfl rfl h).1
+
+/-- … and in the recursion frame 2 (same ip as frame 1) is reported as frame 2 with its own CFA and return address -/
+example : frameInfo Ex.envRec (Ex.regsAt 1000 0 120) 120 150 2 = .ok { num := 2, cfa := 1048, ret := some 350 } := rfl
 
 /-- non-vacuity of `C05_frame_info_innermost`, on the recursive stack -/
-example : frameInfo Ex.envRec (Ex.regsAt 1000 0 120) 120 120 = .ok { num := 0, cfa := 1016, ret := some 150 } :=
-  C05_frame_info_innermost _ _ ⟨120, 1016⟩ ⟨150, 1032⟩ _ Ex.chainRec rfl (by decide)
+example : frameInfo Ex.envRec (Ex.regsAt 1000 0 120) 120 120 0 = .ok { num := 0, cfa := 1016, ret := some 150 } :=
+  C05_frame_info_innermost _ _ ⟨120, 1016⟩ ⟨150, 1032⟩ _ Ex.chainRec rfl
 
-/-- non-vacuity of `C05_frame_select_ip_partial` -/
-example : setFrame Ex.envPlain (Ex.regsAt 1000 0 120) 120 2 = .ok 550 :=
-  C05_frame_select_ip_partial _ _ ⟨120, 1016⟩ _ 2 550 Ex.chainPlain (by decide) (by decide)
+/-- non-vacuity of `C05_frame_select_ip`: the third activation of the recursion can be selected -/
+example : setFrame Ex.envRec (Ex.regsAt 1000 0 120) 120 2 = .ok 150 :=
+  C05_frame_select_ip _ _ ⟨120, 1016⟩ _ 2 150 Ex.chainRec (by decide)
 
 end BsVerif.Unwind
